@@ -264,7 +264,7 @@ package argmapper
 //@   after "name = strings.ToLower(name)" assert [tag-options] has(options, "typeOnly") == specTypeOnly(typ, i) && options["subtype"] == specSub(typ, i)
 //@   after "name = strings.ToLower(name)" assert [tag-name] name == lower(ite(ftag(typ, i) != "" && splitAt(ftag(typ, i), ",", 0) != "", splitAt(ftag(typ, i), ",", 0), fieldName(typ, i)))
 //@   after "result.values = append(result.values, &value)" set vpos = update(vpos, i, len(result.values)-1)
-//@   loop 1 invariant typ != nil && baseType(typ) == baseType(old(typ)) && 0 <= ptrCount && ptrCount <= 255 && ptrDepth(old(typ)) == ptrDepth(typ) + ptrCount
+//@   loop 1 invariant typ != nil && baseType(typ) == baseType(old(typ)) && 0 <= ptrCount && ptrDepth(old(typ)) == ptrDepth(typ) + ptrCount
 //@   loop 1 decreases ptrDepth(typ)
 //@   loop 2 invariant vsKept() && typ == baseType(old(typ)) && kindof(typ) == 25 && 0 <= i && i <= numField(typ) && ptrCount == ptrDepth(old(typ)) && ptrCount <= 1
 //@   loop 2 invariant result != nil && fresh(result) && result.structPointers == ptrCount && !result.isLifted && fresh(result.namedValues) && fresh(result.typedValues) && fresh(result.values)
